@@ -302,8 +302,12 @@ package plugin
 //@ func (*runningStep).provideEnablingInput
 //@   requires wfstep(r) && held(r.lock) && lockinv(r)
 //@   ensures [second-hand-over-refused] old(r.enabledInputAvailable) ==> result != nil && !sentnow(r.enabledInput)
-//@   ensures [first-hand-over-recorded] !old(r.enabledInputAvailable) ==> result == nil && r.enabledInputAvailable && sentnow(r.enabledInput)
-//@   ensures [enabled-iff-absent-or-true] !old(r.enabledInputAvailable) ==> lastsent(r.enabledInput) == (input["enabled"] == nil || input["enabled"] == any(true))
+//@   ensures [first-hand-over-recorded] !old(r.enabledInputAvailable) && result == nil ==> r.enabledInputAvailable && sentnow(r.enabledInput)
+//@   ensures [a-value-that-does-not-read-as-a-boolean-is-refused] !old(r.enabledInputAvailable) ==> \
+//@        (result == nil) == (input["enabled"] == nil || readsAsBool(input["enabled"]))
+//@   ensures [refusal-hands-nothing-over] result != nil ==> !sentnow(r.enabledInput) && r.enabledInputAvailable == old(r.enabledInputAvailable)
+//@   ensures [enabled-is-what-the-field-reads-as-and-true-when-absent] !old(r.enabledInputAvailable) && result == nil ==> \
+//@        lastsent(r.enabledInput) == (input["enabled"] == nil || boolValue(input["enabled"]))
 //@   ensures [a-step-given-its-input-no-longer-reports-waiting] result == nil && r.currentStage == StageIDEnabling ==> r.state != step.RunningStepStateWaitingForInput
 //@   ensures [lock-invariant-kept] lockinv(r)
 //
@@ -319,7 +323,8 @@ package plugin
 //
 //@ func (*runningStep).provideCancelledInput
 //@   requires wfstep(r) && held(r.lock) && lockinv(r)
-//@   ensures [stop-condition-cancels] input["stop_if"] != nil && input["stop_if"] != any(false) ==> r.cancelled && ctxdone(r.ctx)
+//@   ensures [stop-condition-cancels-unless-it-reads-as-false] input["stop_if"] != nil && !(readsAsBool(input["stop_if"]) && !boolValue(input["stop_if"])) ==> r.cancelled && ctxdone(r.ctx)
+//@   ensures [a-stop-condition-that-reads-as-false-changes-nothing] input["stop_if"] == nil || (readsAsBool(input["stop_if"]) && !boolValue(input["stop_if"])) ==> r.cancelled == old(r.cancelled)
 //@   ensures [lock-invariant-kept] lockinv(r)
 //
 //@ func (*runningStep).ProvideStageInput
